@@ -139,7 +139,10 @@ class Monitor(object):
             if len(smp) != 1:
                 self.violate("resume_sample_count", ctx)
                 return
-            served = sum(x.exit_date - x.service_start_date for x in inter) + (r.service_end_date - r.service_start_date)
+            # (an interrupted record's service_time is the requirement remaining at its start; a segment that lasts longer
+            #  ended in a blockage - the customer was interrupted at a shift end WHILE BLOCKED, deliberate and pinned by the
+            #  suite - and the blocked part is not service)
+            served = sum(min(x.exit_date - x.service_start_date, x.service_time) for x in inter) + (r.service_end_date - r.service_start_date)
             if served != smp[0][1]:
                 self.violate("resume_total_service_ne_requirement", dict(ctx, served=served))
         elif opt == "restart":
